@@ -448,6 +448,33 @@ def gen_mw_guards(repo):
     return ''.join(out)
 
 
+def gen_cookie_guards(repo):
+    rel = 'clastic/middleware/cookie.py'
+    tree = parse(repo, rel)
+    jc = find_class(tree, 'JSONCookie')
+    un = find_def(jc.body, 'unserialize')
+    tries = [st for st in un.body if isinstance(st, ast.Try)]
+    if len(tries) != 1:
+        raise TranslatorError('JSONCookie.unserialize: expected one try statement')
+    t = tries[0]
+    handlers = ['except %s => %s' % (ast.unparse(h.type) if h.type is not None else '<bare>', ast.unparse(h.body[-1])) for h in t.handlers]
+    body = [ast.unparse(st) for st in t.body]
+    uq = find_def(jc.body, 'unquote')
+    uq_tries = [st for st in uq.body if isinstance(st, ast.Try)]
+    uq_handlers = ['except %s => %s' % (ast.unparse(h.type) if h.type is not None else '<bare>', ast.unparse(h.body[-1]))
+                   for tr in uq_tries for h in tr.handlers]
+    mw = find_def(find_class(tree, 'SignedCookieMiddleware').body, 'request')
+    conds = [ast.unparse(n.test) for n in ast.walk(mw) if isinstance(n, ast.If)]
+    stamps = [ast.unparse(n) for n in ast.walk(mw) if isinstance(n, ast.Assign) and isinstance(n.targets[0], ast.Subscript)]
+    out = [HEADER % rel, 'From Coq Require Import List String.\nImport ListNotations.\nLocal Open Scope string_scope.\n\n',
+           'Definition UNSERIALIZE_TRY : list string := %s.\n' % names_list(body),
+           'Definition UNSERIALIZE_HANDLERS : list string := %s.\n' % names_list(handlers),
+           'Definition UNQUOTE_HANDLERS : list string := %s.\n' % names_list(uq_handlers),
+           'Definition MW_CONDITIONS : list string := %s.\n' % names_list(conds),
+           'Definition MW_STAMPS : list string := %s.\n' % names_list(stamps)]
+    return ''.join(out)
+
+
 def gen_normpath(repo):
     from strfun import StrFun
     rel = 'clastic/route.py'
@@ -462,6 +489,7 @@ def gen_normpath(repo):
 
 
 GENERATORS = {
+    'CookieGuards.v': gen_cookie_guards,
     'MwGuards.v': gen_mw_guards,
     'StaticGuards.v': gen_static_guards,
     'RouteLex.v': gen_route_lex,
